@@ -59,6 +59,7 @@ func genC01(seed uint64, tier string) *plan.Plan {
 		limit = 65000
 	}
 	pl.Cfg["limit"] = int64(limit)
+	pl.Cfg["max_steps"] = 4_000_000 // 400 records x 40 fields are legitimate
 	nT := 1 + r.IntN(3)
 	sizes := make([]int, nT)
 	for i := 0; i < nT; i++ {
@@ -313,12 +314,16 @@ func runC01(pl *plan.Plan, out *plan.Outcome) {
 		used := make([]int, len(sents))
 		for gi, d := range got {
 			found := false
+			best := -1
 			for si := range sents {
-				if match(sents[si], d) == "" {
-					used[si]++
-					found = true
-					break
+				// identical messages may have been sent more than once: charge the least used one
+				if match(sents[si], d) == "" && (best < 0 || used[si] < used[best]) {
+					best = si
 				}
+			}
+			if best >= 0 {
+				used[best]++
+				found = true
 			}
 			if !found {
 				env.Violate("lossy-unknown-message", "", "delivery %d over lossy udp equals none of the %d messages sent", gi, len(sents))
